@@ -79,8 +79,7 @@ func (u *Unit) invoke(st *State, instr ssa.Instruction, cc *ssa.CallCommon, call
 			u.addOblig(st, "nopanic.nilinvoke", "", nil, Neq(recv, IntLit(0)), instr, "implicit: method call on non-nil interface ("+name+")")
 		}
 		if r, ok := u.stubMethod(st, instr, name, recv, args, sig); ok {
-			u.event(st, name, append([]Value{recv}, args...))
-			return r
+			return u.recordRes(u.event(st, name, append([]Value{recv}, args...)), r)
 		}
 		fs := u.eng.spec.Methods[name]
 		if fs == nil {
@@ -105,8 +104,7 @@ func (u *Unit) invoke(st *State, instr ssa.Instruction, cc *ssa.CallCommon, call
 			full = o.String()
 		}
 		if r, ok := u.stubFunc(st, instr, full, args, sig, cc); ok {
-			u.event(st, name, args)
-			return r
+			return u.recordRes(u.event(st, name, args), r)
 		}
 		if fn.Parent() != nil && fn.Pkg == nil || (fn.Parent() != nil && strings.Contains(fn.Name(), "$")) {
 			// function literal without captures
@@ -574,6 +572,7 @@ func (u *Unit) recordRes(evs []string, rs []callRes) []callRes {
 			continue
 		}
 		for _, ev := range evs {
+			u.recordResultSeq(r.st, ev, r.val)
 			r.st.lastRes[ev] = r.val
 			if r.st.lastCalleeGhost != nil {
 				r.st.calleeGhosts[ev] = r.st.lastCalleeGhost
@@ -582,6 +581,35 @@ func (u *Unit) recordRes(evs []string, rs []callRes) []callRes {
 		r.st.lastCalleeGhost = nil
 	}
 	return rs
+}
+
+// recordResultSeq: events declared `record ... res:Sort` keep the (first)
+// result of every call in a sequence indexed by call number: nthres(ev, k).
+func (u *Unit) recordResultSeq(st *State, evName string, val Value) {
+	for _, ev := range u.eng.spec.Events {
+		if ev.Name != evName || !ev.Record {
+			continue
+		}
+		srt, ok := ev.RecordArgs[-1]
+		if !ok {
+			continue
+		}
+		v := val
+		if tp, isT := v.(Tuple); isT && len(tp) > 0 {
+			v = tp[0]
+		}
+		tv, isT := v.(T)
+		if !isT || tv.Sort != srt {
+			continue
+		}
+		cn := "cnt!" + ev.Name
+		cur, ok := st.cnt[cn]
+		if !ok {
+			continue
+		}
+		key := fmt.Sprintf("seq!%s!%d", ev.Name, -1)
+		st.cnt[key] = Store(u.seqArray(st, key, srt), Sub(cur, IntLit(1)), tv)
+	}
 }
 
 // checkAt evaluates `at MARK assert` clauses of the current function.
@@ -636,7 +664,7 @@ func (u *Unit) event(st *State, name string, args []Value) []string {
 		}
 		if ev.Record {
 			for i, srt := range ev.RecordArgs {
-				if i >= len(args) {
+				if i < 0 || i >= len(args) {
 					continue
 				}
 				at, isT := args[i].(T)
